@@ -6,11 +6,18 @@ Engine `svc` (C11, C12): line protocol for the service-combinator model.
 ```
 case <name>            -> ok            (no current service, waker counter 0)
 svc <S>                -> ok            (S becomes the current service)
-fac <F> <cfg>          -> [events] r=ok|err:E|panic|stuck   (new_service(cfg) driven to completion;
+fac <F> <cfg>          -> [events] r=ok|err:E|stuck k=N | [events] r=panic
+                                        (new_service(cfg) driven to completion;
                                          on ok the built service becomes the current service)
-ready                  -> [events] r=pending|ok|err:E       (one poll_ready, fresh waker)
-call <req>             -> [events] r=ok:V|err:E|panic|stuck (call + drive, fresh waker per poll)
+ready                  -> [events] r=pending|ok|err:E k=N   (one poll_ready, fresh waker)
+call <req>             -> [events] r=ok:V|err:E|stuck k=N | [events] r=panic
+                                        (call + drive, fresh waker per poll)
 ```
+`k` is the number of wake-ups the executor receives during the op: the scripted leaves park the waker
+they are polled with whenever they answer `Pending` and the executor fires all parked wakers after
+every poll, so `k` is the number of inner `Pending` answers (`wakes`).  The real executor re-polls
+only after a wake-up for the waker of the latest poll; a Pending poll without one is reported as
+`r=stalled` by the harness (the model never stalls: `ActixNet.C12.fac_pending_only_if_inner_pending`).
 S and F are s-expressions, see `parseSvc` / `parseFac`.  Numbers have at most 6 digits.
 -/
 namespace Driver.Svc
@@ -55,6 +62,7 @@ def wrapKind : String → Option Wrap
   | "refcell" => some .refCell
   | "ref" => some .ref
   | "box" => some .box
+  | "refmut" => some .refMut
   | _ => none
 
 partial def parseSvc : List String → Option (Svc × List String)
@@ -85,6 +93,13 @@ partial def parseSvc : List String → Option (Svc × List String)
     match t with | ")" :: t => some (.wrap wk s, t) | _ => none
   | _ => none
 
+/-- how the `Transform` value is held: by value, in an `Rc`, in an `Arc` (transparent) -/
+def ptrKind : String → Option Unit
+  | "plain" => some ()
+  | "rc" => some ()
+  | "arc" => some ()
+  | _ => none
+
 partial def parseFac : List String → Option (Fac × List String)
   | "(" :: "fleaf" :: id :: ip :: iok :: uc :: t => do
     let uc ← (match uc with | "cfg" => some true | "nocfg" => some false | _ => none)
@@ -110,9 +125,15 @@ partial def parseFac : List String → Option (Fac × List String)
     let (a, t) ← parseFac t
     match t with | ")" :: t => some (.applyFn a kind k, t) | _ => none
   | "(" :: "transform" :: tr :: tp :: tok :: rcf :: t => do
-    let _ ← (match rcf with | "rc" => some true | "plain" => some false | _ => none)
+    let _ ← ptrKind rcf
     let (a, t) ← parseFac t
-    match t with | ")" :: t => some (.transform (← num tr) (← num tp) (← okErr tok) a, t) | _ => none
+    match t with | ")" :: t => some (.transform (← num tr) (← num tp) (← okErr tok) none a, t) | _ => none
+  | "(" :: "transformerr" :: tr :: tp :: tok :: rcf :: m :: t => do
+    let _ ← ptrKind rcf
+    let (a, t) ← parseFac t
+    match t with
+    | ")" :: t => some (.transform (← num tr) (← num tp) (← okErr tok) (some (← num m)) a, t)
+    | _ => none
   | "(" :: "applycfg" :: t => do
     let (s, t) ← parseSvc t
     match t with
@@ -135,6 +156,9 @@ partial def parseFac : List String → Option (Fac × List String)
   | "(" :: "frc" :: t => do
     let (a, t) ← parseFac t
     match t with | ")" :: t => some (.rc a, t) | _ => none
+  | "(" :: "farc" :: t => do
+    let (a, t) ← parseFac t
+    match t with | ")" :: t => some (.rc a, t) | _ => none
   | _ => none
 
 def svcLeafIds : Svc → List Nat
@@ -155,7 +179,7 @@ def facLeafIds : Fac → List Nat
   | .mapInitErr a _ => facLeafIds a
   | .andThen a b => facLeafIds a ++ facLeafIds b
   | .applyFn a _ _ => facLeafIds a
-  | .transform _ _ _ a => facLeafIds a
+  | .transform _ _ _ _ a => facLeafIds a
   | .applyCfg s _ _ _ => svcLeafIds s
   | .applyCfgFac a _ _ _ => facLeafIds a
   | .mapConfig a _ => facLeafIds a
@@ -206,9 +230,17 @@ def cutPanic : List Evt → List Evt × Bool
     let (l', p) := cutPanic l
     (e :: l', p)
 
+/-- number of inner `Pending` answers = number of wakers parked = wake-ups delivered -/
+def wakes : List Evt → Nat
+  | [] => 0
+  | .polled _ _ none :: l => wakes l + 1
+  | .ipolled _ _ none :: l => wakes l + 1
+  | .rdy _ _ .pending :: l => wakes l + 1
+  | _ :: l => wakes l
+
 def render (log : List Evt) (r : String) : String :=
   let (l, p) := cutPanic log
-  "[" ++ ",".intercalate (l.map evtStr) ++ "] r=" ++ (if p then "panic" else r)
+  "[" ++ ",".intercalate (l.map evtStr) ++ "] r=" ++ (if p then "panic" else s!"{r} k={wakes l}")
 
 def fuel : Nat := 64
 
